@@ -465,6 +465,14 @@ int parse_directives(AsmContext *asm_context)
     //int token_type;
 
     tokens_get(asm_context, token, TOKENLEN);
+
+#ifdef NAKEN_ASM_VERIF
+    naken_asm_verif_label(
+      asm_context,
+      token,
+      asm_context->address / asm_context->bytes_per_address);
+#endif
+
     asm_context->symbols.append(
       token,
       asm_context->address / asm_context->bytes_per_address);
